@@ -124,6 +124,10 @@ pub fn hist_line(c: &Case, calls: &[Call]) -> String {
     };
     let same = res_str(&got) == res_str(&fresh);
     let tags: Vec<String> = calls.iter().map(|x| x.tag()).collect();
+    if ORACLE_MODE.load(std::sync::atomic::Ordering::Relaxed) {
+        // the last result of the history, to be judged by the oracle under the configuration in force at that call
+        return format!("oracle {} hist={} result={}", eff.line(), tags.join(","), res_str(&got));
+    }
     let detail = if same {
         String::new()
     } else {
@@ -145,7 +149,13 @@ pub fn hist_line(c: &Case, calls: &[Call]) -> String {
     )
 }
 
+/// `hist --oracle`: print the last result of every history as an `oracle` request instead of comparing it with a fresh generator
+pub static ORACLE_MODE: std::sync::atomic::AtomicBool = std::sync::atomic::AtomicBool::new(false);
+
 pub fn cmd_hist(args: &[String]) {
+    if args.iter().any(|a| a == "--oracle") {
+        ORACLE_MODE.store(true, std::sync::atomic::Ordering::Relaxed);
+    }
     if let Some(i) = args.iter().position(|a| a == "--case") {
         // replay: --case <kv tokens...> calls=<...>
         let line = args[i + 1..].join(" ");
@@ -208,7 +218,7 @@ pub fn cmd_hist(args: &[String]) {
             if rng.coin() {
                 calls.push(Call::Reset);
             }
-            if rng.coin() {
+            if rng.coin() || ORACLE_MODE.load(std::sync::atomic::Ordering::Relaxed) {
                 calls.push(Call::Reseed(rng.next() % 100000, rng.coin(), rng.coin()));
             }
             calls.push(if rng.coin() { Call::Gen } else { Call::Arb(rng.bytes(40)) });
